@@ -666,6 +666,14 @@ func (c *Ctx) c17Load() {
 			l := flow.InnermostLoop(loops, at)
 			for _, g := range flow.Guards(at) {
 				if l != nil && l.Blocks[g.If.Block()] && g.If.Block() != l.Head {
+					// a test whose other edge abandons the load with an error is not a condition on the insert
+					other := 0
+					if g.Taken {
+						other = 1
+					}
+					if returnsNonNilError(g.If.Block().Succs[other]) {
+						continue
+					}
 					return short(g.If.Cond.String(), 40)
 				}
 				if l == nil && at.Parent() != ld {
@@ -773,7 +781,7 @@ func (c *Ctx) c17Load() {
 			// re-making the index maps outside the once-initialiser
 			if st, ok := in.(*ssa.Store); ok {
 				if tn, fld, _, ok := flow.FieldOf(st.Addr); ok && tn == "Parser" {
-					if _, isMk := st.Val.(*ssa.MakeMap); isMk && f.Parent() == nil && !c.onlyViaOnce(f) {
+					if _, isMk := st.Val.(*ssa.MakeMap); isMk && f.Parent() == nil && !c.onlyViaOnce(f) && !madeWhenNil(f, st) {
 						nDel++
 						r.Fail("R4", fname(f)+":remake-"+fld, c.pos(st), "a Parser index map is re-created outside the once-initialiser: earlier definitions are dropped")
 					}
@@ -845,4 +853,42 @@ func (c *Ctx) c17ParentFunc(f *ssa.Function) (map[int64]int64, string) {
 		return nil, ""
 	}
 	return tabs[0], names[0]
+}
+
+// madeWhenNil: the store of a fresh map into a Parser field happens only on the edge where an index field of the
+// Parser is still nil, and that tested field is itself (re)made under the same test — the indexes are allocated
+// together, once, and an allocated index is never replaced.
+func madeWhenNil(f *ssa.Function, st *ssa.Store) bool {
+	for _, g := range flow.Guards(st) {
+		rl, ok := condRel(g.If.Cond, g.Taken)
+		if !ok || rl.op != token.EQL || !flow.IsNilConst(rl.b) {
+			continue
+		}
+		tn, tested, _, ok := flow.FieldOf(flow.Peel(rl.a))
+		if !ok || tn != "Parser" {
+			continue
+		}
+		// the tested field is made under the same test
+		same := false
+		flow.Instrs(f, func(in ssa.Instruction) {
+			s2, ok := in.(*ssa.Store)
+			if !ok {
+				return
+			}
+			if _, isMk := s2.Val.(*ssa.MakeMap); !isMk {
+				return
+			}
+			if t2, f2, _, ok := flow.FieldOf(s2.Addr); ok && t2 == "Parser" && f2 == tested {
+				for _, g2 := range flow.Guards(s2) {
+					if g2.If == g.If && g2.Taken == g.Taken {
+						same = true
+					}
+				}
+			}
+		})
+		if same {
+			return true
+		}
+	}
+	return false
 }
